@@ -13,6 +13,11 @@ structure DState where
   cfg : Option Cfg := none
   st : LState := {}
   read : List (Nat × Nat) := []      -- responses already read per connection
+  void : Bool := false               -- an operation fell into the timer's uncertainty window
+
+/-- Scheduling latency allowed around a timer deadline (ms): operations that close to a deadline are
+not compared (both sides print `void` from the same arithmetic on the script's own timestamps). -/
+def margin : Nat := 40
 
 def rd (d : DState) (c : Nat) : Nat := ((d.read.find? (·.1 = c)).map (·.2)).getD 0
 
@@ -27,13 +32,13 @@ def modeStr (s : LState) : String :=
   | some m => s!"mode={m}"
   | none => "mode=-"
 
-def step (d : DState) (ws : List String) : DState × String :=
+def stepU (d : DState) (ws : List String) : DState × String :=
   match d.cfg, ws with
   | none, ["listen", kind, ms] =>
     match ms.toNat? with
     | some ms =>
       if kind ≠ "unix" ∧ kind ≠ "tcp" then (d, "bad-op") else
-      let C : Cfg := { idle := ms > 0, unix := kind = "unix", h := hfun }
+      let C : Cfg := { idle := ms > 0, unix := kind = "unix", h := hfun, T := ms, G := max ms 60000 }
       match Listener.step C {} (.bind none) with
       | some s => ({ d with cfg := some C, st := s }, "bound " ++ modeStr s)
       | none => (d, "bad-op")
@@ -84,15 +89,47 @@ def step (d : DState) (ws : List String) : DState × String :=
     let s1 := match s0.timer with
       | some (g, true) =>
         if g = 0 then s0   -- the start-up grace (>= 60 s) does not expire within a script
-        else (runActs C s0 [.fire g, .timerRun g]).getD s0
+        else (runActs C s0 [.tick s0.deadline, .expire g]).getD s0
       | _ => s0
     let s2 := if s1.lnClosed then (runActs C s1 [.acceptErr false, .leave]).getD s1 else s1
     let s3 := (Listener.step C s2 .ret).getD s2
     ({ d with st := s3 }, if s3.main = .returned then "returned " ++ modeStr s3 else "serving " ++ modeStr s3)
   | some _, ["stat"] =>
     (d, (if d.st.main = .returned then "closed " else "accepting ") ++ modeStr d.st)
+  | some _, ["wait", n] => if n.toNat?.isSome then (d, "ok") else (d, "bad-op")
   | some _, ["storm", _, _] => (d, "ok mixed=0 lost=0")
   | _, _ => (d, "bad-op")
+
+/-- Timed wrapper: the last word `@<ms>` is the script's clock. The clock is advanced first; an
+armed idle timer whose deadline is clearly past has expired (listener shut down and returned), one
+whose deadline is within `margin` makes everything from here on `void`. -/
+def step (d : DState) (ws : List String) : DState × String :=
+  match ws.getLast? with
+  | some w =>
+    if w.startsWith "@" then
+      match (w.drop 1).toNat? with
+      | some tau =>
+        let ws' := ws.dropLast
+        if d.void then (d, "void") else
+        match d.cfg with
+        | none => stepU d ws'
+        | some C =>
+          let d1 := { d with st := (Listener.step C d.st (.tick tau)).getD d.st }
+          let s := d1.st
+          match s.timer with
+          | some (g, true) =>
+            if g = 0 ∨ ws' = ["idle"] then stepU d1 ws'
+            else if s.deadline + margin ≤ tau then
+              let s1 := (runActs C s [.expire g]).getD s
+              let s2 := if s1.lnClosed then (runActs C s1 [.acceptErr false, .leave]).getD s1 else s1
+              let s3 := (Listener.step C s2 .ret).getD s2
+              stepU { d1 with st := s3 } ws'
+            else if s.deadline < tau + margin then ({ d1 with void := true }, "void")
+            else stepU d1 ws'
+          | _ => stepU d1 ws'
+      | none => (d, "bad-op")
+    else stepU d ws
+  | none => (d, "bad-op")
 
 def drive : IO Unit := driveLoop ({} : DState) step
 
